@@ -153,6 +153,11 @@ def _():
 def _():
     for d in ({"k": ["#include"]}, {"k": ["a", "#includeEtc"]}, {"k": "#include"}):
         assert rt(d) == d, d
+@w("D40")
+def _():
+    assert strip(parse("s 'http://x.y'; //\nb 1;\n")) == {"s": "http://x.y", "b": 1}
+    s = NativeParser().parse_string("/* see http://x.y */ //\na 1;\n", SDict())
+    assert list(s.block_comments.values()) == ["/* see http://x.y */"], s.block_comments
 
 if __name__ == "__main__":
     sel = sys.argv[1:] or list(W)
